@@ -121,11 +121,22 @@ def build_app(kind):
     return app
 
 
+# request paths that URL handling (urljoin / urlsplit behind request.url) treats in a way of its own: something that looks
+# like a scheme and a bracketed authority (urlsplit raises ValueError), a network-path reference, a colon in the first
+# segment, parameters, backslashes, a literal '?' or '#'
+ODD_PATHS = [("ipv6", "/x://["), ("ipv6-closed", "/x://[y]/"), ("netloc", "//other/p"), ("colon", "/a:b"), ("semi", "/p;v=1"),
+             ("backslash", "/\\h\\p"), ("scheme", "/http://h/p"), ("qmark", "/p?x"), ("hash", "/p#x")]
+
+
 def environ_for(kind, pos, text, accept):
     lead = "/\xff" if kind == "400" else "/"          # '\xff' is no UTF-8: the path cannot be decoded
+    odd = None
+    if "@" in pos:                                    # 'qs@ipv6': the text in the query string, the path an odd one
+        pos, tag = pos.split("@")
+        odd = dict(ODD_PATHS)[tag]
     env = {
         "REQUEST_METHOD": "GET",
-        "PATH_INFO": (lead + "p/" + text) if pos == "path" else lead,
+        "PATH_INFO": odd if odd is not None else (lead + "p/" + text) if pos == "path" else lead,
         "QUERY_STRING": text if pos == "qs" else "",
         "HTTP_HOST": text if pos == "host" else "h",
         "SERVER_NAME": "srv", "SERVER_PORT": "80", "wsgi.url_scheme": "http", "wsgi.errors": ErrLog(),
@@ -252,7 +263,11 @@ class NeutralPage:
         pages = []
         for neutral in ("zqzq", "wkwkwk"):
             calls, body = respond(kind, pos, neutral, accept)
-            assert len(calls) == 1 and calls[0][0][:3] == STATUS[kind], (kind, pos, calls)
+            if "@" in pos:          # odd paths: whatever error the neutral request gets is the reference
+                assert len(calls) == 1 and calls[0][0][:1] in "45", (kind, pos, calls)
+                self.status = calls[0][0][:3]
+            else:
+                assert len(calls) == 1 and calls[0][0][:3] == STATUS[kind], (kind, pos, calls)
             pages.append(body)
         a, b = pages
         self.shown = max(1, a.count(b"zqzq"))      # how often the page shows the text
@@ -408,7 +423,7 @@ def response_failure(kind, neutral, calls, body, text, json_requested):
     if len(calls) != 1:
         return "start_response called %d times" % len(calls)
     status, headers = calls[0]
-    if status[:3] != STATUS[kind]:
+    if status[:3] != (getattr(neutral, "status", None) or STATUS[kind]):
         return "error kind %s answered with status %r: %r" % (kind, status, body)
     ctype = content_type(headers)
     declared = [v for k, v in headers if k.lower() == "content-length"]
@@ -463,6 +478,18 @@ def make_html(kind, pos, template, n, accept=None):
         text = head + s + tail
         calls, body = respond(kind, pos, text, accept)
         return response_failure(kind, neutral, calls, body, text, False)
+    return q
+
+
+def make_oddpath(kind, pos, n):
+    """text in the query string / Host of a request whose path is one of ODD_PATHS (solver index)"""
+    neutrals = [NeutralPage(kind, pos + "@" + tag) for tag, _ in ODD_PATHS]
+
+    def q(oi: int, s: str):
+        assume(0 <= oi < len(ODD_PATHS))
+        printable(s, 1, n)
+        calls, body = respond(kind, pos + "@" + ODD_PATHS[oi][0], s, None)
+        return response_failure(kind, neutrals[oi], calls, body, s, False)
     return q
 
 
@@ -561,6 +588,13 @@ def queries(tier):
                      "%s response, no Accept header; %s" % (kind, where(pos, template, n)),
                      timeout=timeout, expect_cover=["html-page"], family="html",
                      config={"kind": kind, "pos": pos, "template": template, "n": n}))
+    for pos in (["qs"] if not T else ["qs", "host"]):
+        n = 1 if not T else 2
+        out.append(Q("oddpath/404/%s" % pos, make_oddpath("404", pos, n),
+                     "request whose path is one of %r (solver index) and that carries the text s at %s, s every printable-ASCII "
+                     "string of length 1..%d; the reference is the answer to the same path with a neutral text"
+                     % ([p_ for _, p_ in ODD_PATHS], pos, n),
+                     timeout=200 if not T else 600, expect_cover=["html-page"], family="oddpath", config={"pos": pos, "n": n}))
     # HTML or JSON (solver variable) for every kind; the Accept spellings are enumerated
     tails = [("bare", "")] + ([("param", "; charset=utf-8"), ("list", ", text/html;q=0.9")] if T else [])
     for kind in ("404", "405", "500", "500gen", "500prepared", "400", "critical"):
